@@ -89,6 +89,30 @@ def gen_cases(rng, sides, n, drop):
             ref = f'#{nt.nid}' if hasattr(nt, 'nid') else ' '.join(nt.toks())
             op = 'RT'
             args = ' '.join([ref, str(len(targs))] + [PC.show(a) for a in targs])
+        elif c < 0.885:   # history: the same requests repeated within ONE process, interleaved with matches sharing their first equation
+            pat, inst, sigma = gen_pair(rng, gen, drop, rng.choice([1, 2]))
+            if rng.random() < 0.6:      # make sure the first equation binds something and succeeds
+                inst = present(rng, gen, ('I', pat, gen.delta(1, keys=range(gen.nmv), notation=0.2)), drop)
+            first = PC.show(pat) + ' ' + PC.show(inst)
+            free = [k for k in range(gen.nmv + 2) if k not in G.ref_metavars_syntactic(pat)] or [gen.nmv + 2]
+
+            def second():
+                return PC.show(PC.mv(rng.choice(free))) + ' ' + PC.show(gen.term(rng.choice([0, 1])))
+            items = []
+            for _j in range(rng.randrange(3, 7)):
+                k = rng.random()
+                if k < 0.4:
+                    items.append(f'ML 2 {first} {second()}')
+                elif k < 0.6:
+                    items.append(f'MS {first} 0')
+                elif k < 0.75:
+                    items.append(f'ML 1 {first}')
+                elif k < 0.9:
+                    items.append(f'MS {second()} ' + PC.showd(tuple((kk, present(rng, gen, v, drop)) for kk, v in sigma[:1])))
+                else:
+                    p2, i2, _s2 = gen_pair(rng, gen, drop, 1)
+                    items.append(f'MS {PC.show(p2)} {PC.show(i2)} 0')
+            op, args = 'HIST', f'{len(items)} ' + ' '.join(items)
         elif c < 0.92:    # deconstruct_nary_application: the spine must rebuild the pattern
             nts = [x for x in allnots if x.family == 'nary_app'] + spines + ([rng.choice(allnots)] if rng.random() < 0.2 else [])
             nt = rng.choice([x for x in nts if x.arity >= 1])
